@@ -115,6 +115,22 @@ func setup(tier string, seed uint64) {
 		if dropped == 0 {
 			delete(tables, optional[t.Draw(len(optional))])
 		}
+		if i%3 == 0 {
+			// a character map that refers to glyphs beyond the end of the
+			// glyph list (nothing in the container format prevents it), in a
+			// font without OS/2 table, so that Read has to consult the cmap
+			// for its fallbacks
+			if g, err := sfnt.Read(bytes.NewReader(src.file)); err == nil {
+				n := g.NumGlyphs()
+				m := cmap.Format4{}
+				for k, r := range "HxAfil .aMO" {
+					m[uint16(r)] = glyph.ID(n - 3 + k)
+				}
+				g.InstallCMap(m)
+				tables["cmap"] = g.CMapTable.Encode()
+				delete(tables, "OS/2")
+			}
+		}
 		w := simio.NewWriter()
 		if _, err := header.Write(w, dir.Scaler, tables); err != nil {
 			panic(err)
